@@ -627,6 +627,10 @@ class C01(Check):
         if kind == "conv": return self.impl_conv(case)
         obj = self.B.build(case["spec"])
         out = {"cls": type(obj).__name__}
+        # the standard's layout of the object AS CONSTRUCTED, from a twin that is never packed (pack() may rewrite attributes;
+        # the only rewrite the property allows is listed in spec_bytes: ofp_action_output.max_len for ports other than CONTROLLER)
+        try: out["spec_pre"] = self.spec_bytes(self.B.build(case["spec"]), constructed=True)
+        except Exception: out["spec_pre"] = None
         try:
             b = obj.pack()
         except Exception as e:
@@ -1185,6 +1189,10 @@ class C01(Check):
         if cls in SPEC_STATS_CODE:
             t = getattr(self.B.cls(cls), "_type", None)
             if t != SPEC_STATS_CODE[cls]: return "stats type of the class is %s, the standard says %d" % (t, SPEC_STATS_CODE[cls])
+        pre = obs.get("spec_pre")
+        if isinstance(pre, str) and not pre.startswith("!") and pre != obs["pack"]:
+            i = next((k for k in range(0, min(len(pre), len(obs["pack"])), 2) if pre[k:k + 2] != obs["pack"][k:k + 2]), min(len(pre), len(obs["pack"])))
+            return "bytes differ at offset %d from the standard's layout of the object as it was constructed (pack() changed a value it must not change)" % (i // 2)
         sp = obs.get("spec")
         if sp is None: return None
         if sp.startswith("!"):
@@ -1195,7 +1203,7 @@ class C01(Check):
             return "bytes differ from the %s layout of this structure at offset %d" % (which, i // 2)
         return None
 
-    def spec_bytes(self, obj):
+    def spec_bytes(self, obj, constructed=False):
         """the object's field values (read by the field names of the standard's structure) laid out as
         Spec/OF10Layouts.lean says — in Python, from the parsed text of that file, so that it works without the Lean build.
         Nested variable-size parts (rest / element lists) are taken as the elements' own pack() bytes: each element class
@@ -1212,6 +1220,8 @@ class C01(Check):
                 elif f[0] in ("blob", "zstr"):
                     flags = ["substructure-option:match(flow_mod)"] if cname == "ofp_flow_mod" else []
                     vals[f[1]] = self.val_bytes(self.attr(obj, f[1]), obj, f[1], flags)
+            if constructed and cname == "ofp_action_output" and vals.get("port") != 0xfffd:
+                vals["max_len"] = 0            # "max_len … only relevant for OFPP_CONTROLLER": the library sends 0 otherwise
             tb = None
             if tail is not None and tail[0] == "rest":
                 if cname == "ofp_stats_request": tb = obj._pack_body()
@@ -1253,6 +1263,7 @@ class C01(Check):
             if f.startswith(pat):
                 return "%s:%s:%s" % (cls, pat.split()[0].replace("len(obj)", "len"), f[len(pat):].strip())
         if f.startswith("bytes differ from the "): return "%s:pack:layout-differs-from-spec" % cls
+        if f.startswith("bytes differ at offset"): return "%s:pack:value-changed-by-pack" % cls
         if "the standard says" in f: return "%s:registry:type-code" % cls
         if f.startswith("object does not have the fields"): return "%s:pack:fields-differ-from-spec" % cls
         if f.startswith("len(obj) ="): return "%s:len:mismatch" % cls
@@ -1419,6 +1430,12 @@ class C01(Check):
             cases.append({"kind": "seq", "mode": "isolation", "spec": spec, "spec2": s2})
             cases.append({"kind": "seq", "mode": "coexist", "spec": spec, "spec2": s2})
             cases.append({"kind": "conv", "spec": spec, "offset": rng.choice([1, 3, 8, 13])})
+        # ofp_action_output: every reserved port, with and without max_len (max_len must survive for CONTROLLER only)
+        for port in (0, 1, 0xff00, 0xfff8, 0xfff9, 0xfffa, 0xfffb, 0xfffc, 0xfffd, 0xfffe, 0xffff):
+            for ml in (None, 0, 1, 128, 0xffff):
+                kw = dict(port=port)
+                if ml is not None: kw["max_len"] = ml
+                cases.append(self.obj({"cls": "ofp_action_output", "kw": kw}))
         # the odd element first / in the middle / last in an action list
         out1 = {"cls": "ofp_action_output", "kw": dict(port=1)}
         odd = [ofgen.action(random.Random(k)) for k in range(40)]
